@@ -363,7 +363,7 @@ TIES = {
     # code-level round trips: theorems whose statements mention only functions regenerated from /repo on this run
     "C01": [P_ + x for x in ["CodeXtea", "CodeSm4", "CodeCamellia", "CodeAria", "CodeMagma", "CodeBelt", "CodeDes", "CodeGift", "CodeSerpent",
                              "CodeAesFs64", "CodeAesFs32", "CodeAesNi", "CodeAesArmv8", "CodeCast6", "CodeThreefish", "CodeKuznyechik", "CodeKuznyechikSoft",
-                             "CodeSpeck", "CodeCast5", "CodeRc2", "CodeKuznyechikSse2", "CodeKuznyechikNeon", "CodeBlowfish", "CodeRc5", "CodeTwofish"]],
+                             "CodeSpeck", "CodeCast5", "CodeRc2", "CodeKuznyechikSse2", "CodeKuznyechikNeon", "CodeBlowfish", "CodeRc5", "CodeTwofish", "CodeRc5Keyed", "CodeBeltWide"]],
     "C02": [P_ + x for x in ["GenAesFs64Base", "GenAesFs64Ed128", "GenAesFs64Ed192", "GenAesFs64Ed256", "GenAesFs64Ed128c", "GenAesFs64Ed192c",
                              "GenAesFs64Ed256c", "GenAesFs64Ks128", "GenAesFs64Ks192", "GenAesFs64Ks256", "GenAesFs32", "GenAesFs32Keys",
                              "CodeAesFs64", "CodeAesFs32", "GenAesNi", "GenAesArmv8", "CodeAesNi", "CodeAesArmv8"]],
@@ -378,12 +378,12 @@ TIES = {
                              "CodeKuznyechikSse2", "CodeKuznyechikNeon"]],
     "C03": [P_ + x for x in ["CodeKuznyechikSse2", "CodeKuznyechikNeon", "CodeKuznyechik", "CodeKuznyechikSoft"]],
     "C14": [P_ + x for x in ["GenCipherBlowfish", "CodeBlowfish"]],
-    "C18": [P_ + x for x in ["GenBeltWideKatA", "GenBeltWideKatB", "GenBeltWideKatC"]],
+    "C18": [P_ + x for x in ["GenBeltWideKatA", "GenBeltWideKatB", "GenBeltWideKatC", "GenBeltWide", "CodeBeltWide"]],
     "C08": [P_ + x for x in ["GenCipherSerpent", "GenKeysSerpent", "GenCipherCast6", "GenKeysCast6", "CodeSerpent", "CodeCast6", "GenFnTwofish", "GenCipherTwofish", "GenKeysTwofish", "CodeTwofish"]],
     "C09": [P_ + x for x in ["GenCipherCast5", "GenCipherRc2", "GenCipherXtea", "GenKeysXtea", "CodeXtea", "GenKeysCast5", "CodeCast5", "GenKeysRc2", "CodeRc2", "GenFnIdea", "GenCipherIdea", "GenKeysIdea", "CodeIdea",
                              "GenCipherBlowfish", "CodeBlowfish"]],
     "C13": [P_ + x for x in ["GenFnWeak", "CodeWeak"]],
-    "C10": [P_ + x for x in ["GenCipherSpeck", "GenCipherThreefish", "GenKeysThreefish", "GenCipherGift", "GenKeysGift", "CodeGift", "GenKeysSpeck", "CodeSpeck", "CodeThreefish", "GenCipherRc5", "CodeRc5", "GenKeysRc5Kat"]],
+    "C10": [P_ + x for x in ["GenCipherSpeck", "GenCipherThreefish", "GenKeysThreefish", "GenCipherGift", "GenKeysGift", "CodeGift", "GenKeysSpeck", "CodeSpeck", "CodeThreefish", "GenCipherRc5", "CodeRc5", "GenKeysRc5Kat", "GenKeysRc5", "CodeRc5Keyed"]],
 }
 
 
